@@ -313,6 +313,40 @@ class IdentityRun(PubSubRun):
         self.w.quiesce()
         self.after_step(att)
 
+    def step_connect_again(self):
+        """connect() is called again on a Client object that is still connected, with other options: the old
+        connection is given up and the module registers anew as the new call says"""
+        from pyrtma.exceptions import ClientError
+        ch = self.ch
+        live = [p for p in self.parts if isinstance(p, ClientActor) and p.alive and p.connected_ok and p.cm is None
+                and p.client.connected]
+        if not live:
+            return
+        p = ch.choose("id.againwho", live)
+        o = dict(p.opts)
+        o["logger"] = ch.flag("id.again.logger", 1, 2)
+        o["daemon"] = ch.flag("id.again.daemon", 1, 2)
+        o["multi"] = ch.flag("id.again.multi", 1, 2)
+        idx = len(self.attempts)
+        att = dict(via="client", opts=o, idx=idx, outcome=None, part=p, reconnect=True)
+        self.t(f"{p.name} calls connect() again while connected: multi={o['multi']} logger={o['logger']} daemon={o['daemon']}")
+        p.opts = o
+        try:
+            p.client.connect(f"127.0.0.1:{self.w.PORT}", logger_status=o["logger"], daemon_status=o["daemon"],
+                             allow_multiple=o["multi"])
+            p.client.subscribe([T])
+            p.connected_ok = True
+        except ClientError as e:
+            att["error"] = type(e).__name__
+            p.client._connected = False
+            p.connected_ok = False
+        if p.sock is not None and p.sock.kind == "conn":
+            att["conn"] = p.conn
+        self.attempts.append(att)
+        self.res.probes["connect_again_while_connected"] += 1
+        self.w.quiesce()
+        self.after_step(att)
+
     def step_fill_pool(self):
         """every dynamic id is taken; then one holder leaves and a newcomer must get exactly that id"""
         ch = self.ch
@@ -461,7 +495,7 @@ class IdentityRun(PubSubRun):
             bursts = 0
             for _ in range(n):
                 k = ch.weighted("id.step", [(8, "connect"), (3, "disconnect"), (1, "burst"), (2, "drop"), (2, "lazy"),
-                                            (1, "vanish")])
+                                            (1, "vanish"), (2, "again")])
                 if k == "connect":
                     self.step_connect()
                 elif k == "disconnect":
@@ -472,6 +506,8 @@ class IdentityRun(PubSubRun):
                     self.step_lazy()
                 elif k == "vanish":
                     self.step_vanish()
+                elif k == "again":
+                    self.step_connect_again()
                 elif bursts < 2:
                     bursts += 1
                     self.step_dyn_burst()
